@@ -5,12 +5,13 @@ CONSTANT MaxLen
 VARIABLES s, n
 Vals == {<<0, 0, 0, 0>>, <<1, 0, 0, 0>>, <<127, 0, 0, 0>>, <<255, 0, 0, 0>>, <<52, 18, 0, 0>>, <<255, 255, 0, 0>>,
          <<120, 86, 52, 18>>, <<255, 255, 255, 255>>, <<0, 128, 0, 0>>, <<90, 165, 60, 195>>}
-Addrs == {0, 4, 16, 32, 60, 64, 256, 4096}
+Addrs == {0, 4, 16, 32, 60, 64, 256, 4096, 65532, 65533, 65534, 65535}      \* the last four: around a 64 KiB page boundary
 W(w, a, vs) == [k |-> "write", w |-> w, a |-> a, vals |-> vs]
 P(w, a, b) == [k |-> "print", w |-> w, a |-> a, b |-> b]
 Cmds == {W(w, a, <<v>>) : w \in {1, 2, 4}, a \in Addrs, v \in Vals}
         \cup {W(w, a, <<v1, v2, v3>>) : w \in {1, 2, 4}, a \in {16, 64}, v1 \in {<<1, 0, 0, 0>>}, v2 \in Vals, v3 \in {<<52, 18, 0, 0>>}}
         \cup {P(w, a, b) : w \in {1, 2, 4}, a \in {0, 16, 32, 64, 256, 4096}, b \in {0, 20, 36, 68, 80, 260, 4100, 4128}}
+        \cup {P(w, 65520, 65552) : w \in {1, 2, 4}}
 \* fetch sessions: write a load-immediate instruction byte by byte, optionally overwrite its immediate with
 \* another write (8, 16 or 32 bits wide, which the byte order then places), execute it
 FetchCases == {[cpu |-> cpu, pc |-> pc, imm |-> imm, ow |-> ow, ov |-> ov] :
@@ -20,7 +21,12 @@ Init == s = <<>> /\ n \in 2..MaxLen
 NextR == Len(s) < n /\ s' = Append(s, RandomElement(Cmds)) /\ UNCHANGED n
 SpecR == Init /\ [][NextR]_<<s, n>>
 Emit == Len(s) = n => PrintT("CASE " \o ToJson(s))
+\* boundary sessions (always run, not drawn): one write of every width at every address next to a 64 KiB page
+\* boundary, then the bytes and the values around it are printed
+BoundSessions == {<<W(w, a, <<v>>), P(1, 65520, 65552), P(w, 65520, 65552)>> :
+                    w \in {1, 2, 4}, a \in {65532, 65533, 65534, 65535}, v \in {<<120, 86, 52, 18>>, <<255, 255, 255, 255>>}}
+                 \cup {<<W(w, 65530, <<<<1, 0, 0, 0>>, <<120, 86, 52, 18>>, <<90, 165, 60, 195>>>>), P(1, 65520, 65552)>> : w \in {2, 4}}
 InitF == s = <<>> /\ n = 0
 NextF == FALSE /\ UNCHANGED <<s, n>>
-EmitFetch == (s = <<>>) => PrintT("FETCH " \o ToJson(FetchCases))
+EmitFetch == (s = <<>>) => (PrintT("FETCH " \o ToJson(FetchCases)) /\ PrintT("BOUND " \o ToJson(BoundSessions)))
 =============================================================================
